@@ -24,6 +24,11 @@ Tie to the source:
       surrogate output is evaluated with the output bound to the model's own number and compared with the
       exact right-hand side / derivative (Coq: C12_surrogate_output_refused, regression theorem
       C12_surrogate_merged_table_refuted for the merged symbol table).
+      Third pass: a SECOND simulator per model gets y0 = the initial conditions as a mapping in another key order
+      (its Jacobian function must be d rhs/dx in variable order; Coq: init_jac_y0, C12_closure_ignores_y0_key_order,
+      regression C12_y0_key_order_refuted), and models with rate laws that BRANCH ON THE SIGN of a variable /
+      parameter are observed at negative states (oracle only; Coq: SignFold.v, C12_sign_branches_survive_translation,
+      regression C12_nonnegative_symbols_refuted for Symbol(name, nonnegative=True)).
 """
 
 from __future__ import annotations
@@ -57,6 +62,10 @@ _PRE = [
     "surrogates: dict[str, sympy.Symbol] = dict(zip(_surr, cast(list[sympy.Symbol], list_of_symbols(_surr)), strict=True))",
     "symbols: dict[str, sympy.Symbol | sympy.Expr] = variables | parameters | data",
 ]
+# the statement creating the symbols of the model variables (index 2 of _PRE), the seeded shape C12-4, and the helper
+_VARS_AT = 2
+_VARS_NONNEG = "variables: dict[str, sympy.Symbol] = {name: sympy.Symbol(name, nonnegative=True) for name in initial_conditions}"
+_LIST_OF_SYMBOLS = ["return [sympy.Symbol(arg) for arg in args]"]
 _SYMTAB_MERGED = "symbols: dict[str, sympy.Symbol | sympy.Expr] = variables | parameters | data | surrogates"
 _CONV_IF = (
     "if (expr := fn_to_sympy(v.fn, origin=k, model_args=[symbols[i] for i in v.args])) is None:\n"
@@ -106,6 +115,7 @@ _JAC = ["return sympy.Matrix(self.eqs).jacobian(sympy.Matrix(list(self.variables
 
 _LAM_OLD = "_jac_fn = lambdify(('time', self.model.get_variable_names(), self.model.get_parameter_names()), _jac)"
 _LAM_NEW = "_jac_fn = lambdify(('time', self.model.get_variable_names(), _par_names), _jac)"
+_LAM_Y0 = "_jac_fn = lambdify(('time', list(y0), _par_names), _jac)"
 _PAR_NAMES = "_par_names = self.model.get_parameter_names()"
 _PAR_VALUES_DEF = (
     "def _par_values() -> list[float]:\n"
@@ -143,8 +153,18 @@ def _find_fn(tree: ast.AST, name: str, cls: str | None = None) -> ast.FunctionDe
     return next((n for n in scope.body if isinstance(n, ast.FunctionDef) and n.name == name), None)
 
 
+def _list_of_symbols_plain() -> bool:
+    try:
+        tree = ast.parse((common.REPO / "src/mxlpy/meta/sympy_tools.py").read_text())
+    except (OSError, SyntaxError):
+        return False
+    fn = _find_fn(tree, "list_of_symbols")
+    return fn is not None and _body(fn) == _LIST_OF_SYMBOLS and [a.arg for a in fn.args.args] == ["args"]
+
+
 def extract_facts() -> dict[str, str]:
     facts = {
+        "varsym": "VarSymUnknown",
         "order": "OrdUnknown", "symtab": "SymUnknown", "stat": "StatUnknown", "dyn": "DynUnknown", "eqs": "EqsUnknown",
         "jac": "JacUnknown", "lam": "LamUnknown", "third": "ThirdUnknown", "fallback": "FallbackUnknown", "time": "TimeUnknown",
     }
@@ -161,9 +181,18 @@ def extract_facts() -> dict[str, str]:
                 if len(b) != len(expected):
                     continue
                 off = len(_PRE)
-                if b[:off] == _PRE:
+                # how the variables' symbols are created: plain Symbol(name) through list_of_symbols, or
+                # Symbol(name, nonnegative=True) (a regression: Coq theorem C12_nonnegative_symbols_refuted)
+                pre = list(b[:off])
+                if pre[_VARS_AT] == _PRE[_VARS_AT]:
+                    if _list_of_symbols_plain():
+                        facts["varsym"] = "VarSymPlain"
+                elif pre[_VARS_AT] == _VARS_NONNEG:
+                    facts["varsym"] = "VarSymNonneg"
+                    pre[_VARS_AT] = _PRE[_VARS_AT]
+                if pre == _PRE:
                     facts["symtab"] = "SymVarsParsData"
-                elif b[:off] == _PRE[:-1] + [_SYMTAB_MERGED]:
+                elif pre == _PRE[:-1] + [_SYMTAB_MERGED]:
                     # the surrogate output symbols merged into the translation table (a regression: Coq
                     # theorem C12_surrogate_merged_table_refuted)
                     facts["symtab"] = "SymVarsParsDataSurr"
@@ -196,6 +225,12 @@ def extract_facts() -> dict[str, str]:
             if [ast.unparse(s) for s in stmts[:2]] == _SHIFT_HEAD:
                 stmts = stmts[2:]
                 tail, time_args, time_fact = _TAIL_SHIFT, ["t + t_shift", "x"], "TimeShifted"
+            # `y0 = self.y0` hoisted in front of the Jacobian block (harmless by itself; needed by the shape
+            # lambdify(("time", list(y0), ...)) of seeded change C12-5): normalise to the shipped layout
+            hoisted = False
+            if len(stmts) == 4 and ast.unparse(stmts[0]) == "y0 = self.y0" and ast.unparse(stmts[1]) == "jac_fn = None":
+                stmts = [stmts[1], stmts[2], stmts[0], stmts[3]]
+                hoisted = True
             if (
                 len(stmts) == 4
                 and ast.unparse(stmts[0]) == "jac_fn = None"
@@ -237,8 +272,10 @@ def extract_facts() -> dict[str, str]:
                         facts["third"] = "ThirdParamRecords"
                     elif third in ("self.model.get_parameter_values().values()", "list(self.model.get_parameter_values().values())"):
                         facts["third"] = "ThirdBaseValues"
-                elif tb[:1] == [_JAC_LINE] and len(tb) == 5 and tb[1] == _PAR_NAMES and tb[2] == _LAM_NEW:
-                    facts["lam"] = "LamTimeVarsPars"
+                elif tb[:1] == [_JAC_LINE] and len(tb) == 5 and tb[1] == _PAR_NAMES and (tb[2] == _LAM_NEW or (hoisted and tb[2] == _LAM_Y0)):
+                    # state names = the model's variable names | the keys of the y0 mapping (a regression: Coq
+                    # theorem C12_y0_key_order_refuted)
+                    facts["lam"] = "LamTimeVarsPars" if tb[2] == _LAM_NEW else "LamTimeY0KeysPars"
                     if tb[3] == _PAR_VALUES_DEF and third == "_par_values()":
                         facts["third"] = "ThirdNumericByName"
     return facts
@@ -247,12 +284,13 @@ def extract_facts() -> dict[str, str]:
 def gen() -> dict[str, str]:
     f = extract_facts()
     text = (
-        "(* REGENERATED from src/mxlpy/symbolic/symbolic_model.py (to_symbolic_model, SymbolicModel.jacobian) and\n"
+        "(* REGENERATED from src/mxlpy/symbolic/symbolic_model.py (to_symbolic_model, SymbolicModel.jacobian),\n"
+        "   src/mxlpy/meta/sympy_tools.py (list_of_symbols) and\n"
         "   src/mxlpy/simulator.py (Simulator._initialise_integrator) by harness/c12.py; do not edit.\n"
         "   An unrecognised shape yields a *Unknown constructor, which breaks C12_facts_pinned. *)\n"
         "From Symbolic Require Import SymModel.\n"
         "Definition gen_sym_facts : sym_facts :=\n"
-        f"  mkSymFacts {f['order']} {f['symtab']} {f['stat']} {f['dyn']} {f['eqs']} {f['jac']} {f['lam']} {f['third']} {f['fallback']} {f['time']}.\n"
+        f"  mkSymFacts {f['order']} {f['symtab']} {f['stat']} {f['dyn']} {f['eqs']} {f['jac']} {f['lam']} {f['third']} {f['fallback']} {f['time']} {f['varsym']}.\n"
     )
     common.write_if_changed(common.area_dir(AREA) / "GenSymFacts.v", text)
     return f
@@ -349,8 +387,23 @@ def _num_matrix(mat) -> list[list[float]] | None:
     return rows
 
 
-def observe(desc: dict, t: int, x: list[int], p2: dict[int, int] | None) -> dict:
-    """Run the implementation on one model at one point.  Never raises for modelled outcomes."""
+def _closure_obs(jf, t: int, xf: list[float]) -> tuple:
+    """classify one call of the simulator's Jacobian function"""
+    if jf is None:
+        return ("nojac",)
+    try:
+        rows = _num_matrix(jf(float(t), xf))
+        return ("mat", rows) if rows is not None else ("symbolic", str(jf(float(t), xf).tolist())[:160])
+    except _Timeout:
+        raise
+    except Exception as e:  # noqa: BLE001
+        return ("err", _kind(e), str(e)[:160])
+
+
+def observe(desc: dict, t: int, x: list[int], p2: dict[int, int] | None, y0perm: list[int] | None = None) -> dict:
+    """Run the implementation on one model at one point.  Never raises for modelled outcomes.
+    y0perm: additionally construct a Simulator whose initial state is handed over as a dict with its keys in
+    this order (a permutation of the variable indices; the VALUES are the model's own initial conditions)."""
     import sympy
     from mxlpy import Simulator
     from mxlpy.integrators import Scipy
@@ -428,17 +481,35 @@ def observe(desc: dict, t: int, x: list[int], p2: dict[int, int] | None) -> dict
         raise
     except Exception as e:  # noqa: BLE001
         out["clo"] = ("ctor", _kind(e), str(e)[:160])
+    # ... and of a simulator that got the initial state as a mapping in another key order: the state VECTOR the
+    # integrator works on (and the Jacobian function receives) is in model variable order whatever the keys' order
+    if y0perm is not None:
+        try:
+            ic = m.get_initial_conditions()
+            y0 = {names[i]: float(ic[names[i]]) for i in y0perm}
+            out["y0keys"] = [out["inputs"]["vars"][i] for i in y0perm]
+            sim2 = Simulator(m, y0=y0, integrator=partial(Scipy, method="BDF"), use_jacobian=True)
+            out["clo_y0"] = _closure_obs(sim2.integrator.jacobian, t, xf)
+        except _Timeout:
+            raise
+        except Exception as e:  # noqa: BLE001
+            out["clo_y0"] = ("ctor", _kind(e), str(e)[:160])
     # numeric side
     args = m.get_args(dict(zip(names, xf, strict=True)), time=float(t))
     out["rates"] = [(c12_gen.un(k), float(v)) for k, v in args.items()]
     out["rhs"] = [float(v) for v in m(float(t), xf)]
+    k0 = c12_oracle.KINKS[0]
     out["exact_rhs"] = c12_oracle.exact_rhs(m, t, x)
     out["exact_jac"] = c12_oracle.exact_jacobian(m, t, x)
+    # a sign test on a value that is exactly zero: the right-hand side has a kink there, no derivative to compare with
+    out["kink"] = c12_oracle.KINKS[0] != k0
     # after a parameter update through the simulator (no re-conversion): closure + old equations
     if p2 and "sim" in out:
         sim = out["sim"]
         sim.update_parameters({c12_gen.nm(k): float(v) for k, v in p2.items()})
+        k0 = c12_oracle.KINKS[0]
         upd: dict[str, Any] = {"exact_rhs": c12_oracle.exact_rhs(m, t, x), "exact_jac": c12_oracle.exact_jacobian(m, t, x)}
+        upd["kink"] = c12_oracle.KINKS[0] != k0
         upd["inputs"] = c12_gen.read_inputs(m)
         jf = sim.integrator.jacobian
         if jf is None:
@@ -487,19 +558,19 @@ def judge(desc: dict, obs: dict) -> tuple[list[str], list[str]]:
     conv = c12_gen.expected_convertible(desc)
     frozen_guard = c12_gen.has_static_computed_coefficient(desc)
 
-    def check_sym(sym, ex_rhs, ex_jac, label, *, stale_ok: bool) -> None:
+    def check_sym(sym, ex_rhs, ex_jac, label, *, stale_ok: bool, kink: bool = False) -> None:
         if sym[0] != "ok":
             return
         _, ev, jv = sym
         msgs = []
         if not (len(ev) == len(ex_rhs) and all(c12_oracle.close(a, b) for a, b in zip(ev, ex_rhs))):
             msgs.append(f"{label}: symbolic equations evaluate to {ev} but the numeric right-hand side is {[float(v) for v in ex_rhs]}")
-        if not c12_oracle.mat_close(jv, ex_jac):
+        if not kink and not c12_oracle.mat_close(jv, ex_jac):
             msgs.append(f"{label}: symbolic Jacobian {jv} is not the derivative of the numeric right-hand side {[[float(v) for v in r] for r in ex_jac]}")
         for msg in msgs:
             (known if stale_ok else bad).append(msg)
 
-    def check_clo(clo, ex_jac, sym, label, *, stale_ok: bool) -> None:
+    def check_clo(clo, ex_jac, sym, label, *, stale_ok: bool, kink: bool = False) -> None:
         if clo[0] == "symbolic":
             bad.append(
                 f"{label}: the simulator's Jacobian function returns a matrix with entries that are not numbers ({clo[1]}): "
@@ -510,7 +581,7 @@ def judge(desc: dict, obs: dict) -> tuple[list[str], list[str]]:
         elif clo[0] == "err":
             bad.append(f"{label}: the simulator's Jacobian function raised {clo[1]}: {clo[2]}")
         elif clo[0] == "mat":
-            if not c12_oracle.mat_close(clo[1], ex_jac):
+            if not kink and not c12_oracle.mat_close(clo[1], ex_jac):
                 (known if stale_ok else bad).append(
                     f"{label}: the simulator's Jacobian function returns {clo[1]} but the derivative of the numeric right-hand side is {[[float(v) for v in r] for r in ex_jac]}"
                 )
@@ -540,16 +611,24 @@ def judge(desc: dict, obs: dict) -> tuple[list[str], list[str]]:
             f"to_symbolic_model returns equations {obs['sym'][2]} that mention {obs['sym'][1]}, which are neither variables nor "
             "parameters of the model (wrong equations instead of an exception)"
         )
-    check_sym(obs["sym"], obs["exact_rhs"], obs["exact_jac"], "at the model's parameters", stale_ok=False)
-    check_clo(obs["clo"], obs["exact_jac"], obs["sym"], "at the model's parameters", stale_ok=False)
+    kink = bool(obs.get("kink"))
+    check_sym(obs["sym"], obs["exact_rhs"], obs["exact_jac"], "at the model's parameters", stale_ok=False, kink=kink)
+    check_clo(obs["clo"], obs["exact_jac"], obs["sym"], "at the model's parameters", stale_ok=False, kink=kink)
     if obs["sym"][0] == "err" and obs["clo"][0] == "mat":
         bad.append("conversion raises but the simulator uses a Jacobian")
+    if "clo_y0" in obs:
+        keys = [c12_gen.nm(k) for k in obs["y0keys"]]
+        label = f"Simulator(model, y0=<the initial conditions as a dict with keys in the order {keys}>, use_jacobian=True), state {obs['x']} in variable order"
+        check_clo(obs["clo_y0"], obs["exact_jac"], obs["sym"], label, stale_ok=False, kink=kink)
+        if (obs["clo_y0"][0] == "nojac") != (obs["clo"][0] == "nojac"):
+            bad.append(f"{label}: {'no ' if obs['clo_y0'][0] == 'nojac' else ''}Jacobian function, but with y0=None the simulator has {'none' if obs['clo'][0] == 'nojac' else 'one'}")
     if "upd" in obs:
         u = obs["upd"]
+        ukink = bool(u.get("kink"))
         if "old_sym" in u:
-            check_sym(u["old_sym"], u["exact_rhs"], u["exact_jac"], "equations converted before a parameter update, evaluated at the new parameters", stale_ok=frozen_guard)
-        check_sym(u["sym"], u["exact_rhs"], u["exact_jac"], "after a parameter update (fresh conversion)", stale_ok=False)
-        check_clo(u["clo"], u["exact_jac"], obs["sym"], "after Simulator.update_parameters", stale_ok=frozen_guard)
+            check_sym(u["old_sym"], u["exact_rhs"], u["exact_jac"], "equations converted before a parameter update, evaluated at the new parameters", stale_ok=frozen_guard, kink=ukink)
+        check_sym(u["sym"], u["exact_rhs"], u["exact_jac"], "after a parameter update (fresh conversion)", stale_ok=False, kink=ukink)
+        check_clo(u["clo"], u["exact_jac"], obs["sym"], "after Simulator.update_parameters", stale_ok=frozen_guard, kink=ukink)
     return bad, known
 
 
@@ -568,8 +647,23 @@ def _exact(vals) -> list[Fraction] | None:
     return out
 
 
-def coq_case(inputs: dict, t: int, x: list[int], sym, clo, rates, rhs) -> str | None:
-    """Gallina literal of one case, or None if a value is too large to be certainly exact."""
+def _c_clo(clo) -> str | None:
+    if clo[0] == "nojac":
+        return "ObsNoJac"
+    if clo[0] == "symbolic":
+        return "(ObsCloErr ErrName)"  # an unbound name: the entry is not a number (SymModel.eval_py)
+    if clo[0] == "mat":
+        rows = [_exact(r) for r in clo[1]]
+        if any(r is None for r in rows):
+            return None
+        return f"(ObsCloMat {c12_gen.c_qmat(rows)})"
+    return f"(ObsCloErr {c12_gen.c_err(clo[1])})"
+
+
+def coq_case(inputs: dict, t: int, x: list[int], sym, clo, rates, rhs, y0keys=None, clo_y0=None) -> str | None:
+    """Gallina literal of one case, or None if a value is too large to be certainly exact.
+    y0keys / clo_y0: key order of the y0 mapping a second simulator was constructed with and what its Jacobian
+    function returned (default: the variables in declaration order = y0=None, same observation)."""
     extra_point: list = []
     try:
         if sym[0] == "ok":
@@ -589,17 +683,10 @@ def coq_case(inputs: dict, t: int, x: list[int], sym, clo, rates, rhs) -> str | 
             c_sym = f"(ObsVals {c12_gen.c_qlist(ev)} {c12_gen.c_qmat(jv)})"
         else:
             c_sym = f"(ObsErr {c12_gen.c_err(sym[1])})"
-        if clo[0] == "nojac":
-            c_clo = "ObsNoJac"
-        elif clo[0] == "symbolic":
-            c_clo = "(ObsCloErr ErrName)"  # an unbound name: the entry is not a number (SymModel.eval_py)
-        elif clo[0] == "mat":
-            rows = [_exact(r) for r in clo[1]]
-            if any(r is None for r in rows):
-                return None
-            c_clo = f"(ObsCloMat {c12_gen.c_qmat(rows)})"
-        else:
-            c_clo = f"(ObsCloErr {c12_gen.c_err(clo[1])})"
+        c_clo = _c_clo(clo)
+        c_clo_y0 = c_clo if clo_y0 is None else _c_clo(clo_y0)
+        if c_clo is None or c_clo_y0 is None:
+            return None
         rv = _exact([v for _, v in rates])
         rh = _exact(rhs)
         if rv is None or rh is None:
@@ -616,7 +703,8 @@ def coq_case(inputs: dict, t: int, x: list[int], sym, clo, rates, rhs) -> str | 
     return (
         f"(mkCase {c12_gen.c_model(inputs)}\n    {c_point} {cq(t)} {c12_gen.c_qlist([Fraction(v) for v in x])}\n"
         f"    {c_sym}\n    {c_clo}\n    {c_rates} {c12_gen.c_qlist(rh)}\n"
-        f"    {c12_gen.c_raw(inputs)} {clist(map(cn, inputs['parnames']))} {c_pv})"
+        f"    {c12_gen.c_raw(inputs)} {clist(map(cn, inputs['parnames']))} {c_pv}\n"
+        f"    {clist(map(cn, inputs['vars'] if y0keys is None else y0keys))} {c_clo_y0})"
     )
 
 
@@ -689,6 +777,19 @@ def kinetic_model(family: str, rng):
         m.add_parameters({"n0011": 3.0, "n0012": rng.choice([0.5, 20.0]), "n0013": 1.5})
         m.add_derived("n0031", fn=fns.moiety_1s, args=["n0001", "n0011"])
         m.add_reaction("n0041", fn=fns.mass_action_1s_1p, args=["n0001", "n0031", "n0012", "n0013"], stoichiometry={"n0001": -1})
+    elif family == "rectifier":
+        # a potential-like variable V < 0 and a concentration c: the leak is rectified (flows only while V < 0), the
+        # coupling uses a hand-written |V| (harness/c12_fns.py ids 60, 63: fn_to_sympy makes them Piecewise).  V stays
+        # negative along the trajectory (its equilibrium is -kin*c/(4*g) < 0): the branch for negative states is the
+        # one the integrator lives on
+        from harness import c12_fns
+
+        m.add_variables({"n0001": -rng.choice([0.5, 1.5, 3.0]), "n0002": rng.choice([0.5, 2.0])})
+        m.add_parameters({"n0011": rng.choice([0.7, 30.0]), "n0012": rng.choice([0.3, 4.0]), "n0013": 0.2})
+        m.add_reaction("n0041", fn=c12_fns.b_rect_neg, args=["n0001", "n0011"], stoichiometry={"n0001": 1})
+        m.add_reaction("n0042", fn=c12_fns.b_abs_coupling, args=["n0001", "n0002", "n0012"], stoichiometry={"n0002": -1})
+        m.add_reaction("n0043", fn=fns.constant, args=["n0013"], stoichiometry={"n0002": 1})
+        m.add_reaction("n0044", fn=fns.mass_action_1s, args=["n0002", "n0013"], stoichiometry={"n0001": -0.25})
     elif family == "surrogate-output":
         # the OUTPUT of a surrogate (it depends on the state) is an argument of an ordinary reaction or of a
         # derived value a reaction uses: no symbolic form
@@ -731,8 +832,19 @@ def kinetic_model(family: str, rng):
     return m
 
 
-def sim_compare(family: str, model_seed: int, method: str, t_end: float) -> dict:
-    """One model simulated with and without Jacobian by one method.
+def _y0_in_order(m, y0_order: str | None) -> dict | None:
+    """the model's own initial conditions as a mapping whose keys are in another order (None: no y0 argument)"""
+    if y0_order is None:
+        return None
+    ic = m.get_initial_conditions()
+    keys = list(ic)
+    keys = keys[::-1] if y0_order == "rev" else keys[1:] + keys[:1]
+    return {k: float(ic[k]) for k in keys}
+
+
+def sim_compare(family: str, model_seed: int, method: str, t_end: float, y0_order: str | None = None) -> dict:
+    """One model simulated with and without Jacobian by one method (y0_order: the initial state is handed to both
+    simulators as a mapping with its keys reversed / rotated).
     -> {"violation": str|None, "calls": int, "dev": float, "checked": int, "skipped": bool}"""
     import random
 
@@ -778,7 +890,7 @@ def sim_compare(family: str, model_seed: int, method: str, t_end: float) -> dict
                         )
                         return out
             with _WarningCapture() as cap:
-                sim = Simulator(m, integrator=partial(Scipy, method=method), use_jacobian=uj)
+                sim = Simulator(m, y0=_y0_in_order(m, y0_order), integrator=partial(Scipy, method=method), use_jacobian=uj)
             if uj and surrogate:
                 if sim.integrator.jacobian is None:
                     out["fell_back"] = True
@@ -795,11 +907,16 @@ def sim_compare(family: str, model_seed: int, method: str, t_end: float) -> dict
                         nonlocal jac_bad
                         out["calls"] += 1
                         j = _jf(t, x)
-                        if out["calls"] <= 3 and jac_bad is None:
+                        if jac_bad is not None:
+                            # a wrong Jacobian is already recorded: let the integrator finish on the exact one (a
+                            # wrong one can make the implicit methods stall for minutes)
+                            return np.array([[float(v) for v in r] for r in c12_oracle.exact_jacobian(_m, float(t), [float(v) for v in x])])
+                        if out["calls"] <= 3:
                             ex = c12_oracle.exact_jacobian(_m, float(t), [float(v) for v in x])
                             out["checked"] += 1
                             if not c12_oracle.mat_close(np.asarray(j).tolist(), ex, rel=1e-7):
                                 jac_bad = (float(t), [float(v) for v in x], np.asarray(j).tolist(), [[float(v) for v in r] for r in ex])
+                                return np.array([[float(v) for v in r] for r in ex])
                         return j
 
                     sim.integrator.jacobian = counted
@@ -817,6 +934,8 @@ def sim_compare(family: str, model_seed: int, method: str, t_end: float) -> dict
         out["violation"] = f"{family}/{method}: simulation with use_jacobian=True fails ({type(b).__name__}: {str(b)[:120]}) while the plain one succeeds"
         return out
     if jac_bad is not None:
+        if y0_order is not None:
+            family = f"{family} with y0 = the initial conditions as a mapping in {y0_order} key order"
         out["violation"] = f"{family}/{method}: Jacobian handed to the integrator at t={jac_bad[0]} x={jac_bad[1]} is {jac_bad[2]}, derivative of the rhs is {jac_bad[3]}"
         return out
     if a.shape != b.shape:
@@ -856,6 +975,43 @@ def run_sims(run: Run, rng, n_models: int, viol: list) -> dict:
             stats["max_scaled_dev"] = max(stats["max_scaled_dev"], o["dev"] if o["dev"] == o["dev"] else 0.0)
             stats["jacobian_calls"][method] = stats["jacobian_calls"].get(method, 0) + o["calls"]
             run.count_case(("sim", family, method, t_end, model_seed), nontrivial=o["calls"] > 0 or bool(o.get("fell_back")))
+            if o["violation"]:
+                viol.append((o["violation"], rep))
+    return stats
+
+
+# second round (own random stream, so that the first round's models stay what they were): a sign-branching system that
+# lives at negative values of a variable, and the shipped-rate-law systems with the initial state handed over as a
+# mapping in another key order
+FAMILIES2 = [("rectifier", None), ("robertson", "rev"), ("network", "rot"), ("michaelis-menten", "rev"), ("chain", "rot"), ("rectifier", "rev")]
+
+
+def run_sims2(run: Run, rng4, n_models: int, viol: list) -> dict:
+    stats: dict[str, Any] = {"runs": 0, "jacobian_calls": {}, "max_scaled_dev": 0.0, "jacobian_evaluations_checked": 0,
+                             "skipped_failed_integration": 0, "fallback_without_jacobian": 0, "families": {}}
+    for i in range(n_models):
+        family, y0_order = FAMILIES2[i % len(FAMILIES2)]
+        t_end = rng4.choice([1.0, 5.0, 40.0])
+        model_seed = rng4.randrange(2**31)
+        for method in ("LSODA", "BDF", "Radau"):
+            signal.setitimer(signal.ITIMER_REAL, 120.0)
+            rep = {"kind": "sim", "family": family, "method": method, "t_end": t_end, "model_seed": model_seed, "y0_order": y0_order}
+            try:
+                o = sim_compare(family, model_seed, method, t_end, y0_order)
+            except _Timeout:
+                viol.append((f"{family}/{method} (y0 order {y0_order}): no answer within 120 s", rep))
+                continue
+            finally:
+                signal.setitimer(signal.ITIMER_REAL, 0)
+            stats["runs"] += 1
+            key = f"{family}/y0={y0_order}"
+            stats["families"][key] = stats["families"].get(key, 0) + 1
+            stats["jacobian_evaluations_checked"] += o["checked"]
+            stats["skipped_failed_integration"] += bool(o["skipped"])
+            stats["fallback_without_jacobian"] += bool(o["vacuous"])
+            stats["max_scaled_dev"] = max(stats["max_scaled_dev"], o["dev"] if o["dev"] == o["dev"] else 0.0)
+            stats["jacobian_calls"][method] = stats["jacobian_calls"].get(method, 0) + o["calls"]
+            run.count_case(("sim2", family, y0_order, method, t_end, model_seed), nontrivial=o["calls"] > 0)
             if o["violation"]:
                 viol.append((o["violation"], rep))
     return stats
@@ -932,6 +1088,32 @@ def frozen_sim_witness() -> tuple[bool, str, int]:
 # ---------------------------------------------------------------------------------------
 
 
+def _y0_perm(rng3, nv: int) -> list[int] | None:
+    """key order of the y0 mapping of the second simulator: reversed / rotated / shuffled (never the identity);
+    drawn from an own random stream so that the models of the main stream stay what they were"""
+    if nv < 2 or rng3.random() < 0.4:
+        return None
+    perm = list(range(nv))
+    how = rng3.choice(["rev", "rot", "shuffle"])
+    if how == "rev":
+        perm.reverse()
+    elif how == "rot":
+        perm = perm[1:] + perm[:1]
+    else:
+        while perm == list(range(nv)):
+            rng3.shuffle(perm)
+    return perm
+
+
+def _branch_cases(rng2, n: int):
+    """yield (desc, t, x, p2): models with a sign-branching rate law / derived value / coefficient (oracle only)"""
+    for _ in range(n):
+        desc, x = c12_gen.gen_branch_desc(rng2)
+        plain = [k for k, v in desc["pars"] if v[0] == "plain"]
+        p2 = {k: rng2.randint(-3, 3) for k in plain if rng2.random() < 0.7} if plain and rng2.random() < 0.4 else None
+        yield desc, rng2.randint(0, 3), x, p2
+
+
 def _cases(run: Run, rng, n_models: int):
     """yield (desc, t, x, p2)"""
     for desc, t, x, p2 in c12_gen.CORPUS:
@@ -976,7 +1158,15 @@ def check(run: Run) -> None:
         "surrogate (a quasi-steady-state output feeding a reaction directly or through a derived value; a flux-only surrogate) where the conversion has "
         "to raise, the simulator has to fall back with a warning and give the Jacobian-free trajectories; a simulation "
         "is non-trivial if the integrator called the Jacobian at least once (surrogate families: if the simulator fell back); finally the history "
-        "construct / update_parameter / simulate on the frozen-coefficient witness (recorded finding)"
+        "construct / update_parameter / simulate on the frozen-coefficient witness (recorded finding).  "
+        "Third pass (own random streams c12-y0 / c12-branch / c12-sims2, the models above are unchanged): six models in ten with >= 2 variables are ALSO "
+        "given to a second Simulator whose y0 is the model's initial conditions as a mapping in reversed / rotated / shuffled key order (its Jacobian "
+        "function is observed at the same state); 60 (quick) / 300 (thorough) convertible models in which one rate law, derived value or state-dependent "
+        "coefficient BRANCHES ON THE SIGN of a variable, of a sum / product / difference of variables or (one in five) of a parameter / variable*parameter "
+        "(harness/c12_fns.py ids 60-66: if v < 0, conditional expressions, hand-written abs / rectifier / gate), observed at states with non-zero entries, "
+        "the sign variable negative in two cases of three (oracle only: Piecewise is outside the Coq expression fragment); a second round of simulations: "
+        "a rectifier system living at negative values of a potential-like variable, and Robertson / network / Michaelis-Menten / chain / rectifier with the "
+        "initial state handed over as a mapping in reversed / rotated key order"
     )
     proofs_ok = run.check_proofs(AREA, PROPS)
     run.assumptions += [
@@ -992,6 +1182,11 @@ def check(run: Run) -> None:
         "checked per generated case inside Coq (FnTab.surr_ok) and enters the theorems only where a Jacobian is shown to be WRONG (SurrResolved in C12_surrogate_merged_table_refuted); "
         "neural-network surrogates (torch/keras/equinox) are not generated -- the conversion cannot tell them apart from MockSurrogate",
         "an unbound name in the lambdified Jacobian function (model outcome ErrName) stands for 'the entry stays a SymPy expression' (lambdify keeps free symbols in the namespace); observed as a non-numeric matrix entry",
+        "sign-branching rate laws (Piecewise): coq/symbolic/SignFold.v models SymPy's evaluation of relationals decidable from symbol assumptions (nonneg_known: a number >= 0, "
+        "an assumed symbol, sums and products of such -- a conservative reading) and is tied to the source through the regenerated fact sf_varsym only; models with such "
+        "functions are judged by the exact oracle, not by the vm_compute correspondence; at a state where a sign test compares equal values (a kink of the right-hand side) only the values are compared",
+        "a simulator constructed with an explicit y0 mapping: the model takes the KEY ORDER of the mapping as input (init_jac_y0); that the state vector is "
+        "tuple(y0[k] for k in get_variable_names()) is pinned by the fact extractor (tail statements of _initialise_integrator)",
         "polynomial fragment over Q; rational rate laws (Michaelis-Menten, div) are covered by the oracle and the simulations only; floating point is outside the model",
         "scipy.integrate (solve_ivp LSODA/BDF/Radau) is exercised, not modelled: trajectory agreement is validation with tolerance 1e-4 relative (solver rtol=atol=1e-8)",
         "correspondence harness: literal printer, exactness guard |v| < 2^20, coqc output parser",
@@ -1008,11 +1203,20 @@ def check(run: Run) -> None:
     viol: list[tuple[str, dict]] = []
     known_hits: list[str] = []
     signal.signal(signal.SIGALRM, _alarm)
-    for desc, t, x, p2 in _cases(run, rng, n_models):
-        rep = {"kind": "case", "desc": desc_to_json(desc), "t": t, "x": x, "p2": {str(k): v for k, v in (p2 or {}).items()}}
+    rng2 = common.rng_for(run.seed, "c12-branch")
+    rng3 = common.rng_for(run.seed, "c12-y0")
+    n_branch = 300 if thorough else 60
+    branch_stats = {"cases": 0, "negative_sign_argument_states": 0, "kinks_skipped": 0}
+    y0_stats = {"permuted_y0_simulators": 0, "with_jacobian": 0}
+    import itertools
+
+    for desc, t, x, p2 in itertools.chain(_cases(run, rng, n_models), _branch_cases(rng2, n_branch)):
+        y0perm = _y0_perm(rng3, len(desc["vars"]))
+        rep = {"kind": "case", "desc": desc_to_json(desc), "t": t, "x": x, "p2": {str(k): v for k, v in (p2 or {}).items()}, "y0perm": y0perm}
+        branching = c12_gen.uses_branching(desc)
         signal.setitimer(signal.ITIMER_REAL, 60.0)
         try:
-            obs = observe(desc, t, x, p2)
+            obs = observe(desc, t, x, p2, y0perm)
         except _Timeout:
             viol.append((f"no answer within 60 s on a {desc['kind']} model", rep))
             continue
@@ -1031,6 +1235,13 @@ def check(run: Run) -> None:
         clo_outcomes[ck] = clo_outcomes.get(ck, 0) + 1
         n_comp = len(desc["der"]) + len(desc["rxn"])
         run.count_case((rep["desc"], t, x, rep["p2"]), nontrivial=n_comp >= 2 or obs["sym"][0] != "ok")
+        if "clo_y0" in obs:
+            y0_stats["permuted_y0_simulators"] += 1
+            y0_stats["with_jacobian"] += obs["clo_y0"][0] == "mat"
+        if branching:
+            branch_stats["cases"] += 1
+            branch_stats["negative_sign_argument_states"] += any(v < 0 for v in x)
+            branch_stats["kinks_skipped"] += bool(obs.get("kink"))
         if len(run.samples) < 3:
             run.sample({"kind": desc["kind"], "inputs": str(obs["inputs"])[:600], "t": t, "x": x, "sym": str(obs["sym"])[:300], "closure": str(obs["clo"])[:200]})
         bad, known = judge(desc, obs)
@@ -1038,8 +1249,10 @@ def check(run: Run) -> None:
             if len(viol) < 12:
                 viol.append((b, rep))
         known_hits += known
+        if branching:
+            continue  # Piecewise is outside the Coq expression fragment: judged by the oracle only
         # correspondence cases: the point itself, and the state after the parameter update
-        c = coq_case(obs["inputs"], t, x, obs["sym"], obs["clo"], obs["rates"], obs["rhs"])
+        c = coq_case(obs["inputs"], t, x, obs["sym"], obs["clo"], obs["rates"], obs["rhs"], obs.get("y0keys"), obs.get("clo_y0"))
         if c is None:
             skipped_inexact += 1
         else:
@@ -1064,11 +1277,24 @@ def check(run: Run) -> None:
         run.broken_correspondence.append("no simulation of a model with a surrogate fell back to running without Jacobian: the fallback comparison is vacuous")
     if sim_stats["fallback_without_jacobian"] and not viol:
         run.broken_correspondence.append("a convertible shipped-library model was simulated without Jacobian although use_jacobian=True (lambdify/closure construction failed)")
+    sim2_stats = run_sims2(run, common.rng_for(run.seed, "c12-sims2"), 18 if thorough else 6, viol)
+    run.coverage["simulations_sign_branching_and_y0_key_order"] = sim2_stats
+    if sim2_stats["runs"] and not viol:
+        if not sim2_stats["jacobian_evaluations_checked"]:
+            run.broken_correspondence.append("no Jacobian handed to an integrator was compared in the second round of simulations (sign-branching system, permuted y0 mappings): vacuous")
+        if sim2_stats["fallback_without_jacobian"]:
+            run.broken_correspondence.append("a translatable model of the second round (sign-branching system / permuted y0 mapping) was simulated without Jacobian although use_jacobian=True")
 
     run.coverage["input_distribution"] = {
         "model_kinds": kinds, "conversion_outcomes": outcomes, "closure_outcomes": clo_outcomes,
         "skipped_possibly_inexact": skipped_inexact, "correspondence_cases": len(coq_cases),
+        "sign_branching_models_oracle_only": branch_stats, "y0_key_order": y0_stats,
     }
+    if not viol:
+        if not branch_stats["negative_sign_argument_states"]:
+            run.broken_correspondence.append("no sign-branching model was observed at a state with a negative entry: the comparison at negative states is vacuous")
+        if not y0_stats["with_jacobian"]:
+            run.broken_correspondence.append("no simulator constructed with a permuted y0 mapping had a Jacobian function: the key-order comparison is vacuous")
 
     # correspondence inside Coq
     per = 60
@@ -1139,10 +1365,12 @@ def replay(rep: dict) -> int:
     if r.get("kind") == "case":
         desc = desc_from_json(r["desc"])
         p2 = {int(k): v for k, v in r.get("p2", {}).items()} or None
-        obs = observe(desc, r["t"], r["x"], p2)
+        obs = observe(desc, r["t"], r["x"], p2, r.get("y0perm"))
         bad, known = judge(desc, obs)
         print("conversion:", str(obs["sym"])[:400])
         print("closure:", str(obs["clo"])[:400])
+        if "clo_y0" in obs:
+            print("closure of a simulator with y0 keys", obs["y0keys"], ":", str(obs["clo_y0"])[:400])
         for b in bad:
             print("VIOLATES:", b)
         for k in known:
@@ -1151,7 +1379,7 @@ def replay(rep: dict) -> int:
             print("property holds on this input")
         return 1 if bad else 0
     if r.get("kind") == "sim":
-        o = sim_compare(r["family"], r["model_seed"], r["method"], r["t_end"])
+        o = sim_compare(r["family"], r["model_seed"], r["method"], r["t_end"], r.get("y0_order"))
         print(o)
         if o["violation"]:
             print("VIOLATES:", o["violation"])
